@@ -88,7 +88,8 @@ RestoredOk(pre, price2, post2, listing) ==
 (* C11: when is the restored level guaranteed to trade like the original?  When the original's
    effective arrival order is the listing order and it carries no stale ticket. *)
 ForkFlags(orig, rest) ==
-  [sameOrder |-> LiveOrder(orig) = LiveOrder(rest),
+  [good      |-> RestoredOk(orig, Price, rest, <<>>),      \* the copy is a faithful restore at all
+   sameOrder |-> LiveOrder(orig) = LiveOrder(rest),
    noStale   |-> ~HasDupTicket(orig) /\ ~HasStaleTicket(orig)]
 
 \* results of the same call on both levels, as far as C11 speaks of them
@@ -105,7 +106,7 @@ SameResult(r1, r2) ==
 \* `explained` = the model of the code predicts both real results
 C11Verdict(flags, r1, r2, explained) ==
   IF SameResult(r1, r2) THEN {}
-  ELSE IF ~explained THEN {"C11"}
+  ELSE IF ~explained \/ ~flags.good THEN {"C11"}
   ELSE IF ~flags.sameOrder THEN {"KF-C11-1"}
   ELSE IF ~flags.noStale THEN {"KF-C11-2"}
   ELSE {"C11"}
